@@ -3,7 +3,7 @@
 # usage: tools/asan.sh <PROP> <tier> <seed> <workload>...   workloads: inproc | sim | c05slice | c20slice
 # exit 0 clean, 1 sanitizer report or monitor violation, 2 inconclusive
 prop=$1; tier=$2; seed=$3; shift 3
-cd /verif/harness || exit 2
+ROOT="$(cd "$(dirname "$0")/.." && pwd)"; cd "$ROOT/harness" || exit 2
 export CARGO_NET_OFFLINE=true
 export RUSTFLAGS='-Zsanitizer=address -Cforce-frame-pointers=yes --cfg mainline_verif --cfg getrandom_backend="custom"'
 cargo +nightly build --quiet --offline --target x86_64-unknown-linux-gnu --target-dir target/asan 2> target/asan-build.err || { tail -5 target/asan-build.err; echo "asan build failed"; exit 2; }
